@@ -473,7 +473,8 @@ func (w *c11World) connection(idx int, rng interface{ Intn(int) int }) {
 				// the recorded author is the session user (or the obo user for root) and the sender header is the server's
 				author := st.uid.UserId()
 				wantSender := ""
-				if obo != "" && st.lvl == auth.LevelRoot {
+				if obo != "" && st.lvl == auth.LevelRoot && obo != st.uid.UserId() {
+					// (a root session naming itself acts as itself: no 'sender' header)
 					author, wantSender = obo, st.uid.UserId()
 				}
 				for _, d := range w.obs.since(obsFrom) {
